@@ -200,9 +200,47 @@ class C03(Prop):
         return v
 
 
+    def long_runs(self, ctx):
+        """A few pastified monitors fed for several thousand updates without reset(): whatever an operation does to
+        bound its memory (ring buffers, blockwise trimming) must not show in the values.  The reference is
+        evaluated once on the whole trace: a bounded-future value at i-h only depends on the samples up to i."""
+        if ctx.shard != 0:
+            return
+        rng = ctx.rng
+        x, y = lang.V('x'), lang.V('y')
+        p, q = lang.N('geq', x, lang.C(0.0)), lang.N('geq', y, lang.C(1.0))
+        forms = [lang.N('until', p, q, ivl=(1, 3)),
+                 lang.N('always', lang.N('not', lang.N('until', q, p, ivl=(0, 3))), ivl=(0, 1)),
+                 lang.N('eventually', lang.N('and', p, lang.N('next', q)), ivl=(0, 2)),
+                 lang.N('unless', p, q, ivl=(0, 2))]
+        n = 4300 if ctx.tier == 'quick' else 9000
+        for f in forms:
+            data = dict((k, [rng.choice(lang.SMALL) for _ in range(n)]) for k in ('x', 'y'))
+            h = lang.horizon(f)
+            text = lang.to_text(f)
+            exp = ref.evaluate(f, data, n)
+            case = {'type': 'long-run', 'text': text, 'n': n}
+            ctx.case(case, True)
+            ctx.count('class:long-run', 1)
+            try:
+                m = drive.Mon('dt', {'text': text, 'vars': ['x', 'y']}, pastify=True)
+                on = [m.update(i, [('x', data['x'][i]), ('y', data['y'][i])]) for i in range(n)]
+            except Exception as e:
+                ctx.violation('update-raises:' + type(e).__name__, '%s: a %d-update run after pastify() raised %s: %s' % (
+                    text, n, type(e).__name__, e), case)
+                continue
+            bad = [i for i in range(h, n) if exp[i - h] == exp[i - h] and not ref.same(on[i], exp[i - h])]
+            if bad:
+                i = bad[0]
+                ctx.violation('delayed-value', '%s (h=%d), %d updates without reset(): update #%d returned %r, the robustness '
+                              'of the original at sample %d is %r (%d updates differ, data around: x=%s y=%s)' % (
+                                  text, h, n, i, on[i], i - h, exp[i - h], len(bad), data['x'][max(0, i - 6):i + 1],
+                                  data['y'][max(0, i - 6):i + 1]), case)
+
     def extra(self, ctx):
         """Enumerated part: every bounded-future operator x every interval [a,b], 0<=a<=b<=3, alone, under every
         other future operator (reduced interval set), and next to a sibling with a different horizon."""
+        self.long_runs(ctx)
         rng = ctx.rng
         x, y = lang.V('x'), lang.V('y')
         px, py = lang.N('geq', x, lang.C(1.0)), lang.N('leq', y, lang.C(0.5))
